@@ -3,12 +3,107 @@ Each entry point gets its own freshly built copy of the design (elaboration rewr
 from common import main, exc_info
 import io
 import hdl21 as h
-from designlib import Builder
+from designlib import Builder, mk_index
 
 
-def attempt(design, what):
+class Builder2(Builder):
+    """designlib.Builder plus one more faulty leaf: a port of an Instance that was never added to any Module."""
+
+    def expr(self, m, mi, e):
+        if e[0] == "orphanref":
+            inst = h.Instance(of=self.target(e[1]), name="orphan_inst")
+            return getattr(inst, e[2])
+        return super().expr(m, mi, e)
+
+
+class BBuilder:
+    """Bundle designs (harness/vp/c02b.py) -> hdl21 objects, public API only."""
+
+    def __init__(self, d):
+        self.d = d
+        self.bundles = []
+        for k, b in enumerate(d["bundles"]):
+            if k == 0:
+                self.bundles.append(h.Diff)
+                continue
+            B = h.Bundle(name=b["name"])
+            for n, w in b["sigs"]:
+                B.add(h.Signal(name=n, width=w))
+            self.bundles.append(B)
+        self.mods = []
+
+    def target(self, of):
+        return self.mods[of[1]] if of[0] == "mod" else h.R(r=of[2])
+
+    def expr(self, m, e):
+        t = e[0]
+        if t == "sig":
+            return m.get(e[1])
+        if t == "bref":
+            return getattr(m.get(e[1]), e[2])
+        if t == "sl":
+            return self.expr(m, e[1])[mk_index(e[2])]
+        if t == "cat":
+            return h.Concat(*[self.expr(m, p) for p in e[1]])
+        if t == "orphan":
+            return h.Signal(name=f"orph{e[1]}", width=e[1])
+        if t == "foreign":
+            return self.mods[e[1]].get(e[2])
+        if t == "bref_orphan":
+            return getattr(self.bundles[e[1]](name="borph"), e[2])
+        if t == "bref_foreign":
+            return getattr(self.mods[e[1]].get(e[2]), e[3])
+        raise ValueError(t)
+
+    def conn(self, m, c):
+        t = c[0]
+        if t == "x":
+            return self.expr(m, c[1])
+        if t == "b":
+            return m.get(c[1])
+        if t == "anon":
+            ab = h.AnonymousBundle()
+            for name, e in c[1]:
+                ab.add(name, self.expr(m, e))
+            return ab
+        if t == "borphan":
+            return self.bundles[c[1]](name="borph")
+        if t == "bforeign":
+            return self.mods[c[1]].get(c[2])
+        raise ValueError(t)
+
+    def build(self):
+        for md in self.d["mods"]:
+            self.mods.append(h.Module(name=md["name"]) if md["name"] is not None else h.Module())
+        for md, m in zip(self.d["mods"], self.mods):
+            for n, w in md["ports"]:
+                m.add(h.Signal(name=n, width=w, vis=h.signal.Visibility.PORT, direction=h.PortDir.INOUT))
+            for n, k in md["bports"]:
+                m.add(self.bundles[k](port=True, name=n))
+            for n, w in md["sigs"]:
+                m.add(h.Signal(name=n, width=w))
+            for n, k in md["binsts"]:
+                m.add(self.bundles[k](name=n))
+            for x in md["insts"]:
+                tgt = self.target(x["of"])
+                if x["pair"]:
+                    inst = h.Pair(tgt)
+                    inst.name = x["name"]
+                elif x["n"] > 0:
+                    inst = h.InstanceArray(of=tgt, n=x["n"], name=x["name"])
+                else:
+                    inst = h.Instance(of=tgt, name=x["name"])
+                m.add(inst)
+            for x in md["insts"]:
+                inst = m.get(x["name"])
+                for port, c in x["conns"]:
+                    inst.connect(port, self.conn(m, c))
+        return self.mods[self.d["top"]]
+
+
+def attempt(design, what, kind="design"):
     try:
-        top = Builder(design).build()
+        top = (BBuilder(design) if kind == "bdesign" else Builder2(design)).build()
     except Exception as e:
         return ["rejected-at-build", exc_info(e)]
     try:
@@ -24,7 +119,7 @@ def attempt(design, what):
 
 
 def do(job):
-    return {w: attempt(job["design"], w) for w in job["entry"]}
+    return {w: attempt(job["design"], w, job.get("kind", "design")) for w in job["entry"]}
 
 
 def handler(p):
